@@ -1,8 +1,1619 @@
-//! C02 — not implemented yet (stub).
-use crate::engine::Opts;
-pub fn main(_opts: &Opts) -> i32 {
-    eprintln!("C02: check not implemented");
-    2
+//! C02 — term equality, hashing and ordering are lawful and implementation-independent.
+//!
+//! Every model term is *realised* in every shipped `Term` implementation that can hold it; the
+//! observable results of `Term::eq / cmp / hash` (and of the std operator impls) on every ordered
+//! pair of realisations are compared with the model (`model::MT`, written from the documentation).
+//! `Term` is not object safe, so realisations are visited through a generic visitor.
+use crate::engine::*;
+use crate::gen;
+use crate::model::*;
+use proptest::prelude::*;
+use rio_api::model as rio;
+use serde::{Deserialize, Serialize};
+use sophia_api::ns::Namespace;
+use sophia_api::prelude::QuadParser;
+use sophia_api::quad::Quad;
+use sophia_api::source::QuadSource;
+use sophia_api::term::{
+    BnodeId, CmpTerm, FromTerm, IriRef, LanguageTag, SimpleTerm, Term, TermKind, TryFromTerm, VarName,
+};
+use sophia_api::MownStr;
+use sophia_iri::Iri;
+use sophia_rio::model::Trusted;
+use sophia_sparql::ResultTerm;
+use sophia_term::{ArcStrStash, ArcTerm, GenericLiteral, RcStrStash, RcTerm};
+use std::borrow::Borrow;
+use std::cmp::Ordering;
+use std::collections::{BTreeSet, HashSet};
+use std::hash::{Hash, Hasher};
+use std::rc::Rc;
+use std::sync::Arc;
+
+#[derive(Clone, Debug, Serialize, Deserialize)]
+pub struct Case {
+    pub a: MT,
+    pub b: MT,
+    pub c: MT,
+}
+
+pub struct C02;
+
+// =====================================================================================
+// operator view of a realisation
+// =====================================================================================
+
+fn std_digest<T: Hash + ?Sized>(t: &T) -> u64 {
+    let mut h = std::collections::hash_map::DefaultHasher::new();
+    t.hash(&mut h);
+    h.finish()
+}
+fn term_digest<T: Term>(t: &T) -> u64 {
+    let mut h = std::collections::hash_map::DefaultHasher::new();
+    Term::hash(t, &mut h);
+    h.finish()
+}
+
+/// What the std operator impls of a type say (None = the type has no such impl).
+pub trait Ops: Term {
+    /// `triple()`, `constituents()`, ... may be called on non-triples
+    const FULL: bool = true;
+    fn op_eq<U: Term>(&self, _u: &U) -> Option<bool> {
+        None
+    }
+    fn op_cmp<U: Term>(&self, _u: &U) -> Option<Option<Ordering>> {
+        None
+    }
+    fn std_hash(&self) -> Option<u64> {
+        None
+    }
+}
+
+macro_rules! ops_full {
+    ($($t:ty),* $(,)?) => {$(
+        impl Ops for $t {
+            fn op_eq<U: Term>(&self, u: &U) -> Option<bool> { Some(self == u) }
+            fn op_cmp<U: Term>(&self, u: &U) -> Option<Option<Ordering>> { Some(self.partial_cmp(u)) }
+            fn std_hash(&self) -> Option<u64> { Some(std_digest(self)) }
+        }
+        impl<'r> Ops for &'r $t {
+            fn op_eq<U: Term>(&self, u: &U) -> Option<bool> { Some(**self == *u) }
+            fn op_cmp<U: Term>(&self, u: &U) -> Option<Option<Ordering>> { Some((**self).partial_cmp(u)) }
+            fn std_hash(&self) -> Option<u64> { Some(std_digest(*self)) }
+        }
+    )*};
+}
+ops_full!(SimpleTerm<'_>, ArcTerm, RcTerm);
+impl Ops for ResultTerm {
+    fn op_eq<U: Term>(&self, u: &U) -> Option<bool> {
+        Some(self == u)
+    }
+    fn op_cmp<U: Term>(&self, u: &U) -> Option<Option<Ordering>> {
+        Some(self.partial_cmp(u))
+    }
+    fn std_hash(&self) -> Option<u64> {
+        Some(std_digest(self))
+    }
+}
+impl<T: Borrow<str> + std::fmt::Debug> Ops for GenericLiteral<T> {
+    fn op_eq<U: Term>(&self, u: &U) -> Option<bool> {
+        Some(self == u)
+    }
+    fn op_cmp<U: Term>(&self, u: &U) -> Option<Option<Ordering>> {
+        Some(self.partial_cmp(u))
+    }
+    fn std_hash(&self) -> Option<u64> {
+        Some(std_digest(self))
+    }
+}
+impl<'r, T: Borrow<str> + std::fmt::Debug> Ops for &'r GenericLiteral<T> {
+    fn op_eq<U: Term>(&self, u: &U) -> Option<bool> {
+        Some(**self == *u)
+    }
+    fn op_cmp<U: Term>(&self, u: &U) -> Option<Option<Ordering>> {
+        Some((**self).partial_cmp(u))
+    }
+    fn std_hash(&self) -> Option<u64> {
+        Some(std_digest(*self))
+    }
+}
+impl<T: Ops> Ops for CmpTerm<T> {
+    const FULL: bool = T::FULL;
+    fn op_eq<U: Term>(&self, u: &U) -> Option<bool> {
+        Some(self == u)
+    }
+    fn op_cmp<U: Term>(&self, u: &U) -> Option<Option<Ordering>> {
+        Some(self.partial_cmp(u))
+    }
+    fn std_hash(&self) -> Option<u64> {
+        Some(std_digest(self))
+    }
+}
+impl Ops for sophia_api::ns::NsTerm<'_> {
+    fn op_eq<U: Term>(&self, u: &U) -> Option<bool> {
+        Some(self == u)
+    }
+}
+impl<'r> Ops for &'r sophia_api::ns::NsTerm<'_> {
+    fn op_eq<U: Term>(&self, u: &U) -> Option<bool> {
+        Some(**self == *u)
+    }
+}
+macro_rules! ops_none {
+    ($($t:ty),* $(,)?) => {$( impl Ops for $t {} )*};
+}
+ops_none!(i32, isize, usize, f64, bool, &str);
+impl<T: Borrow<str>> Ops for IriRef<T> {}
+impl<'r, T: Borrow<str>> Ops for &'r IriRef<T> {}
+impl<T: Borrow<str>> Ops for Iri<T> {}
+impl<'r, T: Borrow<str>> Ops for &'r Iri<T> {}
+impl<T: Borrow<str>> Ops for BnodeId<T> {}
+impl<'r, T: Borrow<str>> Ops for &'r BnodeId<T> {}
+impl<T: Borrow<str>> Ops for VarName<T> {}
+impl<'r, T: Borrow<str>> Ops for &'r VarName<T> {}
+ops_none!(
+    Trusted<rio::NamedNode<'_>>,
+    Trusted<rio::BlankNode<'_>>,
+    Trusted<rio::Literal<'_>>,
+    Trusted<rio::Variable<'_>>,
+    Trusted<rio::GraphName<'_>>,
+    Trusted<rio::Term<'_>>,
+    Trusted<rio::GeneralizedTerm<'_>>,
+);
+impl<'r> Ops for &'r sophia_jsonld::parser::RdfTerm {}
+
+/// Wrapper for term types that cannot be named from outside their crate (c14n's term type).
+/// Everything — including eq / cmp / hash — is forwarded to the wrapped term.
+#[derive(Clone, Copy, Debug)]
+pub struct Opaque<T>(T);
+impl<T: Term> Term for Opaque<T> {
+    type BorrowTerm<'x>
+        = Opaque<T::BorrowTerm<'x>>
+    where
+        T: 'x;
+    fn kind(&self) -> TermKind {
+        self.0.kind()
+    }
+    fn is_iri(&self) -> bool {
+        self.0.is_iri()
+    }
+    fn is_blank_node(&self) -> bool {
+        self.0.is_blank_node()
+    }
+    fn is_literal(&self) -> bool {
+        self.0.is_literal()
+    }
+    fn is_variable(&self) -> bool {
+        self.0.is_variable()
+    }
+    fn is_atom(&self) -> bool {
+        self.0.is_atom()
+    }
+    fn is_triple(&self) -> bool {
+        self.0.is_triple()
+    }
+    fn iri(&self) -> Option<IriRef<MownStr>> {
+        self.0.iri()
+    }
+    fn bnode_id(&self) -> Option<BnodeId<MownStr>> {
+        self.0.bnode_id()
+    }
+    fn lexical_form(&self) -> Option<MownStr> {
+        self.0.lexical_form()
+    }
+    fn datatype(&self) -> Option<IriRef<MownStr>> {
+        self.0.datatype()
+    }
+    fn language_tag(&self) -> Option<LanguageTag<MownStr>> {
+        self.0.language_tag()
+    }
+    fn variable(&self) -> Option<VarName<MownStr>> {
+        self.0.variable()
+    }
+    fn triple(&self) -> Option<[Self::BorrowTerm<'_>; 3]> {
+        self.0.triple().map(|a| a.map(Opaque))
+    }
+    fn to_triple(self) -> Option<[Self; 3]> {
+        self.0.to_triple().map(|a| a.map(Opaque))
+    }
+    fn borrow_term(&self) -> Self::BorrowTerm<'_> {
+        Opaque(self.0.borrow_term())
+    }
+    fn eq<U: Term>(&self, other: U) -> bool {
+        self.0.eq(other)
+    }
+    fn cmp<U: Term>(&self, other: U) -> Ordering {
+        self.0.cmp(other)
+    }
+    fn hash<H: Hasher>(&self, state: &mut H) {
+        self.0.hash(state)
+    }
+    fn into_term<U: FromTerm>(self) -> U {
+        self.0.into_term()
+    }
+    fn try_into_term<U: TryFromTerm>(self) -> Result<U, U::Error> {
+        self.0.try_into_term()
+    }
+}
+impl<T: Term> Ops for Opaque<T> {
+    // C14nTerm::triple() is `unimplemented!()`
+    const FULL: bool = false;
+}
+
+pub trait Visitor {
+    /// `exact`: the realisation is a conversion/copy of the intended model term and must read
+    /// back identically (parsers, the JSON-LD processor and c14n relabelling may legitimately
+    /// change the term; their realisations are judged against what their accessors say).
+    fn visit<T: Ops>(&mut self, label: &'static str, exact: bool, t: T);
+}
+
+// =====================================================================================
+// realisations
+// =====================================================================================
+
+fn is_xsd(dt: &str, l: &str) -> bool {
+    dt.strip_prefix(XSD) == Some(l)
+}
+
+/// everything that can be built once per model term and lent to visitors
+pub struct Owned {
+    m: MT,
+    st: SimpleTerm<'static>,
+    arc: ArcTerm,
+    rc: RcTerm,
+    stash_arc: ArcTerm,
+    stash_rc: RcTerm,
+    cmp_st: CmpTerm<SimpleTerm<'static>>,
+    res: ResultTerm,
+    iri_string: Option<IriRef<String>>,
+    iri_arc: Option<IriRef<Arc<str>>>,
+    abs_iri: Option<Iri<String>>,
+    /// every split of the IRI into a valid namespace + suffix (validated once, here)
+    ns_splits: Vec<(IriRef<String>, String)>,
+    dt_iri: Option<IriRef<String>>,
+    /// namespace/suffix split of the datatype IRI at its last '#', for the `str * NsTerm` operator
+    dt_split: Option<(IriRef<String>, String)>,
+    tag: Option<LanguageTag<String>>,
+    bn_string: Option<BnodeId<String>>,
+    bn_arc: Option<BnodeId<Arc<str>>>,
+    var_string: Option<VarName<String>>,
+    gl_string: Option<GenericLiteral<String>>,
+    gl_arc: Option<GenericLiteral<Arc<str>>>,
+    gl_rc: Option<GenericLiteral<Rc<str>>>,
+    gl_box: Option<GenericLiteral<Box<str>>>,
+    nat_i32: Option<i32>,
+    nat_isize: Option<isize>,
+    nat_usize: Option<usize>,
+    nat_f64: Option<f64>,
+    nat_bool: Option<bool>,
+    nq_text: String,
+    strict: bool,
+    jsonld_text: Option<String>,
+    /// the object of the single quad the JSON-LD parser produced for `jsonld_text` (parsed once:
+    /// the processor is slow, and its terms are owned)
+    jsonld_term: Option<sophia_jsonld::parser::RdfTerm>,
+}
+
+fn nq_escape(s: &str, out: &mut String) {
+    for c in s.chars() {
+        match c {
+            '"' => out.push_str("\\\""),
+            '\\' => out.push_str("\\\\"),
+            '\n' => out.push_str("\\n"),
+            '\r' => out.push_str("\\r"),
+            '\t' => out.push_str("\\t"),
+            c if (c as u32) < 0x20 || c == '\u{7f}' => out.push_str(&format!("\\u{:04X}", c as u32)),
+            c => out.push(c),
+        }
+    }
+}
+/// own N-Quads-star (generalized) writer
+fn nq_term(m: &MT, out: &mut String) {
+    match m {
+        MT::Iri(i) => {
+            out.push('<');
+            out.push_str(i);
+            out.push('>');
+        }
+        MT::Bnode(b) => {
+            out.push_str("_:");
+            out.push_str(b);
+        }
+        MT::Var(v) => {
+            out.push('?');
+            out.push_str(v);
+        }
+        MT::Lit(l, d) => {
+            out.push('"');
+            nq_escape(l, out);
+            out.push('"');
+            if d != XSD_STRING {
+                out.push_str("^^<");
+                out.push_str(d);
+                out.push('>');
+            }
+        }
+        MT::Lang(l, t) => {
+            out.push('"');
+            nq_escape(l, out);
+            out.push_str("\"@");
+            out.push_str(t);
+        }
+        MT::Triple(t) => {
+            out.push_str("<< ");
+            nq_term(&t[0], out);
+            out.push(' ');
+            nq_term(&t[1], out);
+            out.push(' ');
+            nq_term(&t[2], out);
+            out.push_str(" >>");
+        }
+    }
+}
+
+fn is_abs(i: &str) -> bool {
+    Iri::new(i).is_ok()
+}
+/// strict RDF-star term usable as an object (absolute IRIs only: the strict parsers resolve nothing)
+fn strict_obj(m: &MT) -> bool {
+    match m {
+        MT::Iri(i) => is_abs(i),
+        MT::Bnode(_) | MT::Lang(..) => true,
+        MT::Lit(_, d) => is_abs(d),
+        MT::Var(_) => false,
+        MT::Triple(t) => strict_subj(&t[0]) && matches!(&t[1], MT::Iri(i) if is_abs(i)) && strict_obj(&t[2]),
+    }
+}
+fn strict_subj(m: &MT) -> bool {
+    match m {
+        MT::Iri(_) | MT::Bnode(_) | MT::Triple(_) => strict_obj(m),
+        _ => false,
+    }
+}
+
+impl Owned {
+    pub fn new(m: &MT) -> Owned {
+        let st = m.to_simple();
+        let arc: ArcTerm = (&st).into_term();
+        let rc: RcTerm = (&st).into_term();
+        let stash_arc = ArcStrStash::new().copy_term(&st);
+        let stash_rc = RcStrStash::new().copy_term(&arc);
+        let cmp_st: CmpTerm<SimpleTerm<'static>> = (&arc).into_term();
+        let res: ResultTerm = arc.clone().into();
+        let mut o = Owned {
+            m: m.clone(),
+            st,
+            arc,
+            rc,
+            stash_arc,
+            stash_rc,
+            cmp_st,
+            res,
+            iri_string: None,
+            iri_arc: None,
+            abs_iri: None,
+            ns_splits: vec![],
+            dt_iri: None,
+            dt_split: None,
+            tag: None,
+            bn_string: None,
+            bn_arc: None,
+            var_string: None,
+            gl_string: None,
+            gl_arc: None,
+            gl_rc: None,
+            gl_box: None,
+            nat_i32: None,
+            nat_isize: None,
+            nat_usize: None,
+            nat_f64: None,
+            nat_bool: None,
+            nq_text: String::new(),
+            strict: strict_obj(m),
+            jsonld_text: None,
+            jsonld_term: None,
+        };
+        nq_term(m, &mut o.nq_text);
+        match m {
+            MT::Iri(i) => {
+                o.iri_string = Some(IriRef::new_unchecked(i.clone()));
+                o.iri_arc = Some(IriRef::new_unchecked(Arc::from(i.as_str())));
+                o.abs_iri = Iri::new(i.clone()).ok();
+                for (k, _) in i.char_indices().chain(std::iter::once((i.len(), ' '))) {
+                    if let Ok(ns) = Namespace::new(&i[..k]) {
+                        if ns.get(&i[k..]).is_ok() {
+                            o.ns_splits.push((IriRef::new_unchecked(i[..k].to_string()), i[k..].to_string()));
+                        }
+                    }
+                }
+                if is_abs(i) {
+                    o.jsonld_text = Some(serde_json::json!([{"@id": "http://x/s", "http://x/p": [{"@id": i}]}]).to_string());
+                }
+            }
+            MT::Bnode(b) => {
+                o.bn_string = Some(BnodeId::new_unchecked(b.clone()));
+                o.bn_arc = Some(BnodeId::new_unchecked(Arc::from(b.as_str())));
+                o.jsonld_text = Some(serde_json::json!([{"@id": "http://x/s", "http://x/p": [{"@id": format!("_:{b}")}]}]).to_string());
+            }
+            MT::Var(v) => {
+                o.var_string = Some(VarName::new_unchecked(v.clone()));
+            }
+            MT::Lit(l, d) => {
+                o.dt_iri = Some(IriRef::new_unchecked(d.clone()));
+                if let Some((ns, sfx)) = d.rsplit_once('#') {
+                    let nsi = format!("{ns}#");
+                    if let Ok(ns) = Namespace::new(nsi.as_str()) {
+                        if ns.get(sfx).is_ok() {
+                            o.dt_split = Some((IriRef::new_unchecked(nsi.clone()), sfx.to_string()));
+                        }
+                    }
+                }
+                o.gl_string = Some(GenericLiteral::Typed(l.clone(), IriRef::new_unchecked(d.clone())));
+                o.gl_arc = GenericLiteral::try_from_term(&o.st).ok();
+                o.gl_rc = GenericLiteral::try_from_term(&o.arc).ok();
+                o.gl_box = GenericLiteral::try_from_term(&o.rc).ok();
+                if is_xsd(d, "integer") {
+                    o.nat_i32 = l.parse::<i32>().ok().filter(|v| v.to_string() == *l);
+                    o.nat_isize = l.parse::<isize>().ok().filter(|v| v.to_string() == *l);
+                    o.nat_usize = l.parse::<usize>().ok().filter(|v| v.to_string() == *l);
+                }
+                if is_xsd(d, "boolean") {
+                    o.nat_bool = match l.as_str() {
+                        "true" => Some(true),
+                        "false" => Some(false),
+                        _ => None,
+                    };
+                }
+                if is_xsd(d, "double") {
+                    // the literal is the image of an f64 iff that f64 says so itself
+                    o.nat_f64 = l.parse::<f64>().ok().filter(|v| v.lexical_form().map(|x| x.to_string()) == Some(l.clone()));
+                }
+                if is_abs(d) {
+                    o.jsonld_text = Some(
+                        serde_json::json!([{"@id": "http://x/s", "http://x/p": [{"@value": l, "@type": d}]}]).to_string(),
+                    );
+                }
+            }
+            MT::Lang(l, t) => {
+                o.tag = Some(LanguageTag::new_unchecked(t.clone()));
+                o.gl_string = Some(GenericLiteral::LanguageString(l.clone(), LanguageTag::new_unchecked(t.clone())));
+                o.gl_arc = GenericLiteral::try_from_term(&o.st).ok();
+                o.gl_rc = GenericLiteral::try_from_term(&o.arc).ok();
+                o.gl_box = GenericLiteral::try_from_term(&o.rc).ok();
+                o.jsonld_text = Some(
+                    serde_json::json!([{"@id": "http://x/s", "http://x/p": [{"@value": l, "@language": t}]}]).to_string(),
+                );
+            }
+            MT::Triple(_) => {}
+        }
+        if let Some(doc) = &o.jsonld_text {
+            let mut got = vec![];
+            let r = catch(|| sophia_jsonld::JsonLdParser::new().parse_str(doc).for_each_quad(|q| got.push(q.0[2].clone())));
+            if matches!(r, Ok(Ok(()))) && got.len() == 1 {
+                o.jsonld_term = got.pop();
+            }
+        }
+        o
+    }
+
+    /// cheap realisations (no parsing)
+    pub fn visit_light<V: Visitor>(&self, v: &mut V) {
+        v.visit("SimpleTerm", true, &self.st);
+        v.visit("SimpleTerm(owned)", true, self.st.clone());
+        v.visit("SimpleTerm(from_term_ref)", true, SimpleTerm::from_term_ref(&self.arc));
+        v.visit("SimpleTerm(as_simple)", true, self.rc.as_simple());
+        v.visit("ArcTerm", true, &self.arc);
+        v.visit("ArcTerm(owned)", true, self.arc.clone());
+        v.visit("RcTerm", true, &self.rc);
+        v.visit("ArcStrStash::copy_term", true, &self.stash_arc);
+        v.visit("RcStrStash::copy_term", true, &self.stash_rc);
+        v.visit("CmpTerm<&SimpleTerm>", true, self.cmp_st.borrow_term());
+        v.visit("CmpTerm<&ArcTerm>", true, CmpTerm(&self.arc));
+        v.visit("CmpTerm<RcTerm>", true, CmpTerm(self.rc.clone()));
+        v.visit("ResultTerm", true, self.res.clone());
+        with_gen(&self.m, &mut |g| v.visit("Trusted<GeneralizedTerm>(built)", true, Trusted(g)));
+        if self.strict {
+            with_rio(&self.m, &mut |t| v.visit("Trusted<RioTerm>(built)", true, Trusted(t)));
+        }
+        if let Some(t) = &self.jsonld_term {
+            v.visit("jsonld-parser", false, t);
+        }
+        match &self.m {
+            MT::Iri(i) => {
+                // (borrowed wrappers are derived from the owned ones: `new_unchecked` re-validates in this profile)
+                let owned = self.iri_string.as_ref().unwrap();
+                v.visit("IriRef<&str>", true, owned.as_ref());
+                v.visit("IriRef<String>", true, owned);
+                v.visit("IriRef<Arc<str>>", true, self.iri_arc.as_ref().unwrap().clone());
+                v.visit("IriRef<MownStr>", true, owned.as_ref().map_unchecked(MownStr::from_ref));
+                if let Some(a) = &self.abs_iri {
+                    v.visit("Iri<&str>", true, a.as_ref());
+                    v.visit("Iri<String>", true, a);
+                }
+                for (n, (ns, sfx)) in self.ns_splits.iter().enumerate() {
+                    let t = sophia_api::ns::NsTerm::new_unchecked(ns.as_ref(), sfx.as_str());
+                    v.visit("NsTerm", true, t);
+                    if n == 0 {
+                        v.visit("&NsTerm", true, &t);
+                        v.visit("NsTerm::to_iriref", true, t.to_iriref());
+                    }
+                }
+                v.visit("Trusted<NamedNode>", true, Trusted(rio::NamedNode { iri: i }));
+                v.visit("Trusted<GraphName>", true, Trusted(rio::GraphName::NamedNode(rio::NamedNode { iri: i })));
+            }
+            MT::Bnode(b) => {
+                v.visit("BnodeId<&str>", true, self.bn_string.as_ref().unwrap().as_ref());
+                v.visit("BnodeId<String>", true, self.bn_string.as_ref().unwrap());
+                v.visit("BnodeId<Arc<str>>", true, self.bn_arc.as_ref().unwrap().clone());
+                v.visit("Trusted<BlankNode>", true, Trusted(rio::BlankNode { id: b }));
+                v.visit("Trusted<GraphName>", true, Trusted(rio::GraphName::BlankNode(rio::BlankNode { id: b })));
+            }
+            MT::Var(n) => {
+                v.visit("VarName<&str>", true, self.var_string.as_ref().unwrap().as_ref());
+                v.visit("VarName<String>", true, self.var_string.as_ref().unwrap());
+                v.visit("Trusted<Variable>", true, Trusted(rio::Variable { name: n }));
+            }
+            MT::Lit(l, d) => {
+                v.visit("GenericLiteral<String>", true, self.gl_string.as_ref().unwrap());
+                v.visit("GenericLiteral<Arc<str>>", true, self.gl_arc.as_ref().unwrap().clone());
+                v.visit("GenericLiteral<Rc<str>>", true, self.gl_rc.as_ref().unwrap());
+                v.visit("GenericLiteral<Box<str>>", true, self.gl_box.as_ref().unwrap());
+                v.visit("GenericLiteral<&str>", true, GenericLiteral::Typed(l.as_str(), self.dt_iri.as_ref().unwrap().as_ref()));
+                if is_abs(d) {
+                    v.visit(
+                        "Trusted<Literal::Typed>",
+                        true,
+                        Trusted(rio::Literal::Typed { value: l, datatype: rio::NamedNode { iri: d } }),
+                    );
+                }
+                if d == XSD_STRING {
+                    v.visit("&str", true, l.as_str());
+                    v.visit("Trusted<Literal::Simple>", true, Trusted(rio::Literal::Simple { value: l }));
+                }
+                // lexical * datatype operator
+                if let Some((ns, sfx)) = &self.dt_split {
+                    v.visit("str*NsTerm", true, l.as_str() * sophia_api::ns::NsTerm::new_unchecked(ns.as_ref(), sfx.as_str()));
+                }
+                if let Some(n) = self.nat_i32 {
+                    v.visit("i32", true, n);
+                }
+                if let Some(n) = self.nat_isize {
+                    v.visit("isize", true, n);
+                }
+                if let Some(n) = self.nat_usize {
+                    v.visit("usize", true, n);
+                }
+                if let Some(n) = self.nat_f64 {
+                    v.visit("f64", true, n);
+                }
+                if let Some(n) = self.nat_bool {
+                    v.visit("bool", true, n);
+                }
+            }
+            MT::Lang(l, t) => {
+                v.visit("GenericLiteral<String>", true, self.gl_string.as_ref().unwrap());
+                v.visit("GenericLiteral<Arc<str>>", true, self.gl_arc.as_ref().unwrap().clone());
+                v.visit("GenericLiteral<Rc<str>>", true, self.gl_rc.as_ref().unwrap());
+                v.visit("GenericLiteral<Box<str>>", true, self.gl_box.as_ref().unwrap());
+                v.visit(
+                    "GenericLiteral<&str>",
+                    true,
+                    GenericLiteral::LanguageString(l.as_str(), self.tag.as_ref().unwrap().as_ref()),
+                );
+                v.visit(
+                    "Trusted<Literal::LanguageTaggedString>",
+                    true,
+                    Trusted(rio::Literal::LanguageTaggedString { value: l, language: t }),
+                );
+                v.visit("str*LanguageTag", true, l.as_str() * self.tag.as_ref().unwrap().as_ref());
+            }
+            MT::Triple(t) => {
+                let spo = [t[0].to_simple(), t[1].to_simple(), t[2].to_simple()];
+                v.visit("SimpleTerm::from_triple", true, SimpleTerm::from_triple(spo.clone()));
+                v.visit("SimpleTerm::from_triple([ArcTerm;3])", true, SimpleTerm::from_triple(spo.clone().map(|x| x.into_term::<ArcTerm>())));
+            }
+        }
+    }
+
+    /// parser-backed realisations (terms only alive inside a parser callback), JSON-LD, c14n
+    pub fn visit_heavy<V: Visitor>(&self, v: &mut V, skipped: &mut Vec<&'static str>) {
+        // generalized N-Quads: any term as object
+        {
+            let doc = format!("<http://x/s> <http://x/p> {} .\n", self.nq_text);
+            let mut n = 0;
+            let r = catch(|| {
+                sophia_turtle::parser::gnq::parse_str(&doc).for_each_quad(|q| {
+                    n += 1;
+                    v.visit("gnq-parser", false, q.o());
+                })
+            });
+            match r {
+                Err(_) => skipped.push("gnq-parser(panicked)"),
+                Ok(r) => {
+                    if r.is_err() || n != 1 {
+                        skipped.push("gnq-parser");
+                    }
+                }
+            }
+        }
+        if self.strict {
+            let doc = format!("<http://x/s> <http://x/p> {} .\n", self.nq_text);
+            let mut n = 0;
+            let r = sophia_turtle::parser::nq::parse_str(&doc).for_each_quad(|q| {
+                n += 1;
+                v.visit("nq-parser", false, q.o());
+            });
+            if r.is_err() || n != 1 {
+                skipped.push("nq-parser");
+            }
+            // subject / graph-name positions
+            if strict_subj(&self.m) && !self.m.is_triple() {
+                let doc = format!("{0} <http://x/p> <http://x/o> {0} .\n", self.nq_text);
+                let r = sophia_turtle::parser::nq::parse_str(&doc).for_each_quad(|q| {
+                    v.visit("nq-parser(subject)", false, q.s());
+                    if let Some(g) = q.g() {
+                        v.visit("nq-parser(graph)", false, g);
+                    }
+                });
+                if r.is_err() {
+                    skipped.push("nq-parser(subject)");
+                }
+            }
+        }
+        if self.jsonld_text.is_some() && self.jsonld_term.is_none() {
+            skipped.push("jsonld-parser");
+        }
+        if !self.m.is_triple() && !self.m.is_var() {
+            let mut d: HashSet<sophia_api::quad::Spog<SimpleTerm<'static>>> = HashSet::new();
+            d.insert((
+                [IriRef::new_unchecked("http://x/s").into_term(), IriRef::new_unchecked("http://x/p").into_term(), self.st.clone()],
+                None,
+            ));
+            match sophia_c14n::rdfc10::relabel(&d) {
+                Ok((quads, _)) => {
+                    for q in &quads {
+                        // blank nodes get a canonical label: judged against their own accessors
+                        v.visit("c14n-relabel", !self.m.is_bnode(), Opaque(q.o()));
+                    }
+                }
+                Err(_) => skipped.push("c14n-relabel"),
+            }
+        }
+    }
+}
+
+/// build a rio generalized term on the stack and hand it to `k`
+fn with_gen<'m>(m: &'m MT, k: &mut dyn FnMut(rio::GeneralizedTerm<'_>)) {
+    use rio::GeneralizedTerm as G;
+    match m {
+        MT::Iri(i) => k(G::NamedNode(rio::NamedNode { iri: i })),
+        MT::Bnode(b) => k(G::BlankNode(rio::BlankNode { id: b })),
+        MT::Var(v) => k(G::Variable(rio::Variable { name: v })),
+        // (rio's Trusted<> literals must carry an absolute datatype IRI)
+        MT::Lit(l, d) => {
+            if is_abs(d) {
+                k(G::Literal(rio::Literal::Typed { value: l, datatype: rio::NamedNode { iri: d } }))
+            }
+        }
+        MT::Lang(l, t) => k(G::Literal(rio::Literal::LanguageTaggedString { value: l, language: t })),
+        MT::Triple(t) => with_gen(&t[0], &mut |s| {
+            with_gen(&t[1], &mut |p| {
+                with_gen(&t[2], &mut |o| {
+                    let arr = [s, p, o];
+                    k(G::Triple(&arr))
+                })
+            })
+        }),
+    }
+}
+/// build a strict rio term (caller checked `strict_obj`)
+fn with_rio<'m>(m: &'m MT, k: &mut dyn FnMut(rio::Term<'_>)) {
+    use rio::Term as T;
+    match m {
+        MT::Iri(i) => k(T::NamedNode(rio::NamedNode { iri: i })),
+        MT::Bnode(b) => k(T::BlankNode(rio::BlankNode { id: b })),
+        MT::Var(_) => {}
+        MT::Lit(l, d) => {
+            if d == XSD_STRING {
+                k(T::Literal(rio::Literal::Simple { value: l }))
+            } else {
+                k(T::Literal(rio::Literal::Typed { value: l, datatype: rio::NamedNode { iri: d } }))
+            }
+        }
+        MT::Lang(l, t) => k(T::Literal(rio::Literal::LanguageTaggedString { value: l, language: t })),
+        MT::Triple(t) => {
+            let MT::Iri(p) = &t[1] else { return };
+            with_rio(&t[0], &mut |s| {
+                let subject = match s {
+                    T::NamedNode(n) => rio::Subject::NamedNode(n),
+                    T::BlankNode(b) => rio::Subject::BlankNode(b),
+                    T::Triple(t) => rio::Subject::Triple(t),
+                    T::Literal(_) => return,
+                };
+                with_rio(&t[2], &mut |o| {
+                    let tr = rio::Triple { subject, predicate: rio::NamedNode { iri: p }, object: o };
+                    k(T::Triple(&tr))
+                })
+            })
+        }
+    }
+}
+
+// =====================================================================================
+// observations
+// =====================================================================================
+
+fn kind_name(m: &MT) -> &'static str {
+    match m {
+        MT::Iri(_) => "iri",
+        MT::Bnode(_) => "bnode",
+        MT::Lit(..) => "literal",
+        MT::Lang(..) => "lang-literal",
+        MT::Triple(_) => "triple",
+        MT::Var(_) => "variable",
+    }
+}
+/// how two model terms relate (the trigger part of signatures; also a class label)
+fn relation(a: &MT, b: &MT) -> String {
+    if a == b {
+        if a.same_repr(b) {
+            "equal".into()
+        } else {
+            "equal-up-to-tag-case".into()
+        }
+    } else if a.rank() != b.rank() {
+        format!("{}-vs-{}", kind_name(a), kind_name(b))
+    } else {
+        match (a, b) {
+            (MT::Lang(l1, t1), MT::Lang(l2, t2)) => {
+                if l1 == l2 {
+                    "lang-literals-differ-in-tag".into()
+                } else if t1.eq_ignore_ascii_case(t2) {
+                    "lang-literals-differ-in-lexical".into()
+                } else {
+                    "lang-literals-differ".into()
+                }
+            }
+            (MT::Lit(l1, d1), MT::Lit(l2, d2)) => {
+                if l1 == l2 {
+                    "literals-differ-in-datatype".into()
+                } else if d1 == d2 {
+                    "literals-differ-in-lexical".into()
+                } else {
+                    "literals-differ".into()
+                }
+            }
+            (MT::Lit(l1, _), MT::Lang(l2, _)) | (MT::Lang(l1, _), MT::Lit(l2, _)) => {
+                if l1 == l2 {
+                    "typed-vs-lang-same-lexical".into()
+                } else {
+                    "typed-vs-lang".into()
+                }
+            }
+            (MT::Iri(x), MT::Iri(y)) => {
+                if x.starts_with(y.as_str()) || y.starts_with(x.as_str()) {
+                    "iris-one-prefix-of-other".into()
+                } else {
+                    "iris-differ".into()
+                }
+            }
+            (MT::Triple(x), MT::Triple(y)) => {
+                let same = (0..3).filter(|i| x[*i] == y[*i]).count();
+                format!("triples-sharing-{same}")
+            }
+            _ => format!("{}s-differ", kind_name(a)),
+        }
+    }
+}
+
+struct PairObs {
+    e1: bool,
+    e2: bool,
+    c1: Ordering,
+    c2: Ordering,
+    ha: u64,
+    hb: u64,
+    op_eq: Option<bool>,
+    op_eq_rev: Option<bool>,
+    op_cmp: Option<Option<Ordering>>,
+    op_cmp_rev: Option<Option<Ordering>>,
+    sh_a: Option<u64>,
+    sh_b: Option<u64>,
+}
+
+#[inline(never)]
+fn observe<T: Ops, U: Ops>(ta: &T, tb: &U) -> PairObs {
+    PairObs {
+        e1: Term::eq(ta, tb.borrow_term()),
+        e2: Term::eq(tb, ta.borrow_term()),
+        c1: Term::cmp(ta, tb.borrow_term()),
+        c2: Term::cmp(tb, ta.borrow_term()),
+        ha: term_digest(ta),
+        hb: term_digest(tb),
+        op_eq: ta.op_eq(tb),
+        op_eq_rev: tb.op_eq(ta),
+        op_cmp: ta.op_cmp(tb),
+        op_cmp_rev: tb.op_cmp(ta),
+        sh_a: ta.std_hash(),
+        sh_b: tb.std_hash(),
+    }
+}
+
+fn judge(ctx: &mut Ctx, la: &str, lb: &str, ma: &MT, mb: &MT, o: &PairObs) {
+    let exp_eq = ma == mb;
+    let exp_cmp = ma.cmp(mb);
+    let mut bad = |ctx: &mut Ctx, law: &str, left: &str, right: &str, what: String| {
+        ctx.fail(
+            format!("{law}/{left}/{}", relation(ma, mb)),
+            format!("{left} {} vs {right} {}: {what}", if left == la { ma.show() } else { mb.show() }, if left == la { mb.show() } else { ma.show() }),
+        );
+    };
+    if o.e1 != exp_eq {
+        bad(ctx, "eq", la, lb, format!("Term::eq = {}, terms are {}", o.e1, if exp_eq { "equal" } else { "different" }));
+    }
+    if o.e2 != exp_eq {
+        bad(ctx, "eq", lb, la, format!("Term::eq = {}, terms are {}", o.e2, if exp_eq { "equal" } else { "different" }));
+    }
+    if o.c1 != exp_cmp {
+        bad(ctx, "cmp", la, lb, format!("Term::cmp = {:?}, documented order gives {exp_cmp:?}", o.c1));
+    }
+    if o.c2 != exp_cmp.reverse() {
+        bad(ctx, "cmp", lb, la, format!("Term::cmp = {:?}, documented order gives {:?}", o.c2, exp_cmp.reverse()));
+    }
+    if exp_eq && o.ha != o.hb {
+        bad(ctx, "hash", la, lb, format!("equal terms, Term::hash digests {:#x} != {:#x}", o.ha, o.hb));
+    }
+    if let Some(e) = o.op_eq {
+        if e != exp_eq {
+            bad(ctx, "op-eq", la, lb, format!("`==` gives {e}"));
+        }
+    }
+    if let Some(e) = o.op_eq_rev {
+        if e != exp_eq {
+            bad(ctx, "op-eq", lb, la, format!("`==` gives {e}"));
+        }
+    }
+    if let Some(c) = o.op_cmp {
+        if c != Some(exp_cmp) {
+            bad(ctx, "op-cmp", la, lb, format!("partial_cmp gives {c:?}, expected {exp_cmp:?}"));
+        }
+    }
+    if let Some(c) = o.op_cmp_rev {
+        if c != Some(exp_cmp.reverse()) {
+            bad(ctx, "op-cmp", lb, la, format!("partial_cmp gives {c:?}, expected {:?}", exp_cmp.reverse()));
+        }
+    }
+    if let Some(s) = o.sh_a {
+        if s != o.ha {
+            bad(ctx, "std-hash", la, lb, format!("std Hash digest {s:#x} differs from Term::hash digest {:#x}", o.ha));
+        }
+    }
+    if let (Some(x), Some(y)) = (o.sh_a, o.sh_b) {
+        if exp_eq && x != y {
+            bad(ctx, "std-hash", la, lb, format!("equal terms, std Hash digests {x:#x} != {y:#x}"));
+        }
+    }
+}
+
+fn is_heavy(label: &str) -> bool {
+    label.contains("-parser") || label.starts_with("c14n")
+}
+
+/// inner visitor: the right-hand side of a pair
+struct Inner<'x, T: Ops> {
+    ctx: &'x mut Ctx,
+    la: &'static str,
+    ta: &'x T,
+    ma: &'x MT,
+    mb_intended: &'x MT,
+    pairs: u64,
+}
+impl<T: Ops> Visitor for Inner<'_, T> {
+    fn visit<U: Ops>(&mut self, lb: &'static str, exact: bool, tb: U) {
+        self.pairs += 1;
+        let actual;
+        let mb = if exact {
+            self.mb_intended
+        } else {
+            actual = MT::from_term(tb.borrow_term());
+            &actual
+        };
+        let o = observe(self.ta, &tb);
+        judge(self.ctx, self.la, lb, self.ma, mb, &o);
+    }
+}
+
+/// outer visitor: the left-hand side of a pair
+struct Outer<'x> {
+    ctx: &'x mut Ctx,
+    ma_intended: &'x MT,
+    b: &'x Owned,
+    pairs: u64,
+}
+impl Visitor for Outer<'_> {
+    fn visit<T: Ops>(&mut self, la: &'static str, exact: bool, ta: T) {
+        let actual;
+        let ma = if exact {
+            self.ma_intended
+        } else {
+            actual = MT::from_term(ta.borrow_term());
+            &actual
+        };
+        let mut inner = Inner { ctx: &mut *self.ctx, la, ta: &ta, ma, mb_intended: &self.b.m, pairs: 0 };
+        self.b.visit_light(&mut inner);
+        if is_heavy(la) {
+            let mut sk = vec![];
+            self.b.visit_heavy(&mut inner, &mut sk);
+        }
+        self.pairs += inner.pairs;
+    }
+}
+
+// ------------------------------------------------------------------ unary checks
+
+struct ConvObs {
+    m: MT,
+    eq: bool,
+    eq_rev: bool,
+    cmp: Ordering,
+    h_same: bool,
+}
+#[inline(never)]
+fn conv_obs<T: Term, C: Term>(t: &T, c: C) -> ConvObs {
+    ConvObs {
+        m: MT::from_term(c.borrow_term()),
+        eq: Term::eq(t, c.borrow_term()),
+        eq_rev: Term::eq(&c, t.borrow_term()),
+        cmp: Term::cmp(t, c.borrow_term()),
+        h_same: term_digest(t) == term_digest(&c),
+    }
+}
+
+struct Unary<'x> {
+    ctx: &'x mut Ctx,
+    intended: &'x MT,
+    count: u64,
+}
+impl Unary<'_> {
+    fn conv(&mut self, label: &str, path: &str, actual: &MT, o: ConvObs) {
+        if o.m == *actual && !o.m.same_repr(actual) {
+            // equal but not identical (language tag case changed): allowed by the statement
+            self.ctx.class(format!("conversion-changes-tag-case:{path}"));
+        }
+        if o.m != *actual {
+            self.ctx.fail(
+                format!("conv/{path}/{}", kind_name(actual)),
+                format!("{label} {} --{path}--> {}", actual.show(), o.m.show()),
+            );
+        }
+        if !(o.eq && o.eq_rev && o.cmp == Ordering::Equal && o.h_same) {
+            self.ctx.fail(
+                format!("conv-eq/{path}/{label}/{}", kind_name(actual)),
+                format!(
+                    "{label} {} --{path}--> {}: eq={} rev-eq={} cmp={:?} same-hash={}",
+                    actual.show(),
+                    o.m.show(),
+                    o.eq,
+                    o.eq_rev,
+                    o.cmp,
+                    o.h_same
+                ),
+            );
+        }
+    }
+}
+impl Visitor for Unary<'_> {
+    fn visit<T: Ops>(&mut self, label: &'static str, exact: bool, t: T) {
+        self.count += 1;
+        self.ctx.class(format!("impl:{label}"));
+        let actual = MT::from_term(t.borrow_term());
+        let kn = kind_name(&actual);
+        if exact && actual != *self.intended {
+            self.ctx.fail(
+                format!("repr/{label}/{}", kind_name(self.intended)),
+                format!("{label} built from {} reads back as {}", self.intended.show(), actual.show()),
+            );
+            return;
+        }
+        if !exact && !actual.same_repr(self.intended) {
+            self.ctx.class(format!("changed-by:{label}"));
+        }
+        // accessor consistency with kind()
+        let k = t.kind();
+        let flags = [
+            (t.is_iri(), k == TermKind::Iri),
+            (t.is_blank_node(), k == TermKind::BlankNode),
+            (t.is_literal(), k == TermKind::Literal),
+            (t.is_variable(), k == TermKind::Variable),
+            (t.is_triple(), k == TermKind::Triple),
+            (t.is_atom(), k != TermKind::Triple),
+            (t.iri().is_some(), k == TermKind::Iri),
+            (t.bnode_id().is_some(), k == TermKind::BlankNode),
+            (t.lexical_form().is_some(), k == TermKind::Literal),
+            (t.datatype().is_some(), k == TermKind::Literal),
+            (t.variable().is_some(), k == TermKind::Variable),
+        ];
+        if flags.iter().any(|(a, b)| a != b) {
+            self.ctx.fail(format!("accessors/{label}/{kn}"), format!("{label} {}: is_*/accessors inconsistent with kind {k:?}: {flags:?}", actual.show()));
+        }
+        if t.language_tag().is_some() != matches!(actual, MT::Lang(..)) {
+            self.ctx.fail(format!("accessors/{label}/{kn}"), format!("{label} {}: language_tag inconsistent", actual.show()));
+        }
+        if let MT::Lang(..) = actual {
+            if t.datatype().map(|d| d.as_str().to_string()) != Some(RDF_LANGSTRING.to_string()) {
+                self.ctx.fail(format!("accessors/{label}/{kn}"), format!("{label} {}: datatype of a language string is not rdf:langString", actual.show()));
+            }
+        }
+        if T::FULL {
+            if t.triple().is_some() != (k == TermKind::Triple) {
+                self.ctx.fail(format!("accessors/{label}/{kn}"), format!("{label} {}: triple() inconsistent with kind", actual.show()));
+            }
+            let mut cs = vec![];
+            actual.constituents(&mut cs);
+            let mut ats = vec![];
+            actual.atoms(&mut ats);
+            let got_c: Vec<MT> = t.constituents().map(MT::from_term).collect();
+            let got_a: Vec<MT> = t.atoms().map(MT::from_term).collect();
+            let same = |g: &[MT], e: &[&MT]| g.len() == e.len() && g.iter().zip(e).all(|(x, y)| x.same_repr(y));
+            if !same(&got_c, &cs) || !same(&got_a, &ats) {
+                self.ctx.fail(format!("constituents/{label}/{kn}"), format!("{label} {}: constituents()/atoms() differ from the term structure", actual.show()));
+            }
+            if let Some(tr) = t.borrow_term().to_triple() {
+                let got: Vec<MT> = tr.into_iter().map(MT::from_term).collect();
+                if let MT::Triple(e) = &actual {
+                    if !(0..3).all(|i| got[i].same_repr(&e[i])) {
+                        self.ctx.fail(format!("to_triple/{label}"), format!("{label} {}: to_triple() differs", actual.show()));
+                    }
+                }
+                let o = conv_obs(&t, SimpleTerm::from_triple(t.triple().unwrap()));
+                self.conv(label, "SimpleTerm::from_triple", &actual, o);
+            }
+        }
+        // reflexivity and stability
+        let o = conv_obs(&t, t.borrow_term());
+        self.conv(label, "borrow_term", &actual, o);
+        if term_digest(&t) != term_digest(&t) {
+            self.ctx.fail(format!("hash-unstable/{label}"), format!("{label} {}", actual.show()));
+        }
+        // conversion paths
+        let o = conv_obs(&t, t.borrow_term().into_term::<SimpleTerm<'static>>());
+        self.conv(label, "into_term::<SimpleTerm>", &actual, o);
+        let o = conv_obs(&t, t.borrow_term().try_into_term::<SimpleTerm<'static>>().unwrap());
+        self.conv(label, "try_into_term::<SimpleTerm>", &actual, o);
+        let o = conv_obs(&t, t.as_simple());
+        self.conv(label, "as_simple", &actual, o);
+        let o = conv_obs(&t, SimpleTerm::from_term_ref(&t));
+        self.conv(label, "SimpleTerm::from_term_ref", &actual, o);
+        let arc = t.borrow_term().into_term::<ArcTerm>();
+        let o = conv_obs(&t, &arc);
+        self.conv(label, "into_term::<ArcTerm>", &actual, o);
+        let o = conv_obs(&t, t.borrow_term().into_term::<RcTerm>());
+        self.conv(label, "into_term::<RcTerm>", &actual, o);
+        let o = conv_obs(&t, t.borrow_term().into_term::<CmpTerm<SimpleTerm<'static>>>());
+        self.conv(label, "into_term::<CmpTerm<SimpleTerm>>", &actual, o);
+        let o = conv_obs(&t, t.borrow_term().try_into_term::<CmpTerm<SimpleTerm<'static>>>().unwrap());
+        self.conv(label, "try_into_term::<CmpTerm<SimpleTerm>>", &actual, o);
+        let o = conv_obs(&t, CmpTerm(t.borrow_term()));
+        self.conv(label, "CmpTerm(borrow_term)", &actual, o);
+        let o = conv_obs(&t, ArcStrStash::new().copy_term(t.borrow_term()));
+        self.conv(label, "ArcStrStash::copy_term", &actual, o);
+        let o = conv_obs(&t, RcStrStash::new().copy_term(t.borrow_term()));
+        self.conv(label, "RcStrStash::copy_term", &actual, o);
+        let o = conv_obs(&t, ResultTerm::from(arc));
+        self.conv(label, "ResultTerm::from", &actual, o);
+        match t.borrow_term().try_into_term::<GenericLiteral<Arc<str>>>() {
+            Ok(gl) => {
+                if k != TermKind::Literal {
+                    self.ctx.fail(format!("conv/GenericLiteral-accepts/{kn}"), format!("{label} {} converts to a GenericLiteral", actual.show()));
+                }
+                let o = conv_obs(&t, &gl);
+                self.conv(label, "try_into_term::<GenericLiteral>", &actual, o);
+            }
+            Err(_) => {
+                if k == TermKind::Literal {
+                    self.ctx.fail(format!("conv/GenericLiteral-rejects/{kn}"), format!("{label} {} does not convert to a GenericLiteral", actual.show()));
+                }
+            }
+        }
+    }
+}
+
+// =====================================================================================
+// generator
+// =====================================================================================
+
+fn iri_pool() -> Vec<String> {
+    let mut v = gen::plain_iris();
+    v.extend(gen::vocab_iris());
+    v.extend(
+        [
+            "http://x/ns#", "http://x/ns", "http://x/ns#pq", "http://x/nsp#", "http://x/ns##p", "http://x/ns#p/", "http://x/", "http://x", "a", "b1", "x", "#p", "",
+            "../r", "?q", "http://x/a#", "http://x/A", "HTTP://x/a", "http://x/a%20b", "http://x/%C3%A9", "http://x/é", "http://x/e\u{301}", "http://x/\u{10000}",
+            "tag:a", "urn:x:", "urn:x:y:z", "http://www.w3.org/2001/XMLSchema#", "http://www.w3.org/2001/XMLSchema#integer2",
+            "http://www.w3.org/1999/02/22-rdf-syntax-ns#langString",
+        ]
+        .iter()
+        .map(|s| s.to_string()),
+    );
+    v
+}
+fn label_pool() -> Vec<String> {
+    let mut v = gen::bnode_labels_plain();
+    v.extend(gen::bnode_labels_exotic());
+    v
+}
+fn var_pool() -> Vec<String> {
+    // names valid both as VARNAME and (mostly) as blank node labels / lexical forms
+    ["a", "b", "c0", "b1", "x", "y", "0", "_", "__", "a_", "\u{3b1}\u{3b2}", "a\u{b7}b", "e\u{301}", "\u{10000}x", "x\u{203f}y", "9"]
+        .iter()
+        .map(|s| s.to_string())
+        .collect()
+}
+fn dt_pool() -> Vec<String> {
+    let mut v = gen::datatypes();
+    v.extend(["http://x/a", "http://x/ns#p", "http://x/dt2", "tag:t"].iter().map(|s| s.to_string()));
+    v.push(xsd("int"));
+    v
+}
+fn tag_pool() -> Vec<String> {
+    let mut v = gen::tags();
+    v.extend(["En", "eN", "en-Us", "EN-US", "FR", "fr-BE", "de", "x-PRIV", "a", "A", "en-us-x-a", "zh-Hant-TW"].iter().map(|s| s.to_string()));
+    v
+}
+fn lex_strategy() -> BoxedStrategy<String> {
+    prop_oneof![
+        4 => pick_str(&["", "a", "b", "A", "42", "-1", "0", "007", "1.5", "1e5", "INF", "NaN", "true", "false", "en", "x", "b1", "http://x/a", "_:a", "a b", " a"]),
+        3 => gen::lexical(6),
+    ]
+    .boxed()
+}
+
+fn atom(kind: u8) -> BoxedStrategy<MT> {
+    match kind {
+        0 => pick(iri_pool()).prop_map(MT::Iri).boxed(),
+        1 => pick(label_pool()).prop_map(MT::Bnode).boxed(),
+        2 => (lex_strategy(), pick(dt_pool())).prop_map(|(l, d)| MT::Lit(l, d)).boxed(),
+        3 => (lex_strategy(), pick(tag_pool())).prop_map(|(l, t)| MT::Lang(l, t)).boxed(),
+        _ => pick(var_pool()).prop_map(MT::Var).boxed(),
+    }
+}
+/// literals that are the image of a native Rust value (so that i32/isize/usize/f64/bool/&str take part)
+fn native_image() -> BoxedStrategy<MT> {
+    prop_oneof![
+        pick_str(&["0", "1", "-1", "42", "2147483647", "-2147483648", "2147483648", "9223372036854775807", "18446744073709551615", "-9223372036854775808"])
+            .prop_map(|l| MT::lit(l, xsd("integer"))),
+        pick_str(&["true", "false"]).prop_map(|l| MT::lit(l, xsd("boolean"))),
+        pick_str(&["0", "-0", "1", "1.5", "-2.5", "0.1", "INF", "-INF", "NaN", "100000000000000000000", "0.000001", "42"]).prop_map(|l| MT::lit(l, xsd("double"))),
+        lex_strategy().prop_map(MT::string),
+    ]
+    .boxed()
+}
+fn any_atom() -> BoxedStrategy<MT> {
+    prop_oneof![3 => atom(0), 2 => atom(1), 3 => atom(2), 2 => native_image(), 3 => atom(3), 1 => atom(4)].boxed()
+}
+fn any_term(depth: u32) -> BoxedStrategy<MT> {
+    if depth == 0 {
+        return any_atom();
+    }
+    let sub = any_term(depth - 1);
+    // strict-shaped triples (so that the strict parsers take part) and generalized ones
+    let strict = (
+        prop_oneof![2 => atom(0), 1 => atom(1), 1 => sub.clone()],
+        atom(0),
+        prop_oneof![2 => any_atom(), 1 => sub.clone()],
+    )
+        .prop_map(|(s, p, o)| MT::triple(s, p, o));
+    let general = (sub.clone(), sub.clone(), sub).prop_map(|(s, p, o)| MT::triple(s, p, o));
+    prop_oneof![8 => any_atom(), 2 => strict, 1 => general].boxed()
+}
+
+/// a term derived from `a` that is equal, nearly equal, or shares components
+#[derive(Clone, Debug)]
+enum Mutn {
+    Same,
+    FlipTagCase(u8),
+    OtherTag(String),
+    OtherLex(String),
+    OtherName(String),
+    OtherDt(String),
+    ToLang(String),
+    ToPlain,
+    SwapKind(u8),
+    IriTweak(u8),
+    Component(u8, Box<Mutn>),
+    Wrap(u8),
+    Unwrap(u8),
+    Fresh(MT),
+}
+fn flip_case(t: &str, how: u8) -> String {
+    match how % 4 {
+        0 => t.to_ascii_uppercase(),
+        1 => t.to_ascii_lowercase(),
+        2 => t
+            .chars()
+            .enumerate()
+            .map(|(i, c)| if i % 2 == 0 { c.to_ascii_uppercase() } else { c.to_ascii_lowercase() })
+            .collect(),
+        _ => {
+            let mut cs: Vec<char> = t.chars().collect();
+            if let Some(c) = cs.last_mut() {
+                *c = if c.is_ascii_uppercase() { c.to_ascii_lowercase() } else { c.to_ascii_uppercase() };
+            }
+            cs.into_iter().collect()
+        }
+    }
+}
+fn string_of(m: &MT) -> Option<&str> {
+    match m {
+        MT::Iri(s) | MT::Bnode(s) | MT::Var(s) | MT::Lit(s, _) | MT::Lang(s, _) => Some(s),
+        MT::Triple(_) => None,
+    }
+}
+fn apply(a: &MT, mu: &Mutn) -> MT {
+    match (mu, a) {
+        (Mutn::Same, _) => a.clone(),
+        (Mutn::FlipTagCase(h), MT::Lang(l, t)) => MT::Lang(l.clone(), flip_case(t, *h)),
+        (Mutn::OtherTag(t2), MT::Lang(l, _)) => MT::Lang(l.clone(), t2.clone()),
+        (Mutn::OtherLex(l2), MT::Lang(_, t)) => MT::Lang(l2.clone(), t.clone()),
+        (Mutn::OtherLex(l2), MT::Lit(_, d)) => MT::Lit(l2.clone(), d.clone()),
+        (Mutn::OtherName(n), MT::Bnode(_)) if BnodeId::new(n.as_str()).is_ok() => MT::Bnode(n.clone()),
+        (Mutn::OtherName(n), MT::Var(_)) if VarName::new(n.as_str()).is_ok() => MT::Var(n.clone()),
+        (Mutn::OtherName(n), MT::Bnode(b)) | (Mutn::OtherName(n), MT::Var(b)) if n.is_empty() => {
+            // prefix / extension of the same label
+            if b.chars().count() > 1 {
+                let mut c = b.clone();
+                c.pop();
+                if matches!(a, MT::Bnode(_)) && BnodeId::new(c.as_str()).is_ok() { MT::Bnode(c) } else if matches!(a, MT::Var(_)) && VarName::new(c.as_str()).is_ok() { MT::Var(c) } else { a.clone() }
+            } else if matches!(a, MT::Bnode(_)) { MT::Bnode(format!("{b}0")) } else { MT::Var(format!("{b}0")) }
+        }
+        (Mutn::OtherDt(d2), MT::Lit(l, _)) | (Mutn::OtherDt(d2), MT::Lang(l, _)) => MT::Lit(l.clone(), d2.clone()),
+        (Mutn::ToLang(t), MT::Lit(l, _)) => MT::Lang(l.clone(), t.clone()),
+        (Mutn::ToPlain, MT::Lang(l, _)) | (Mutn::ToPlain, MT::Lit(l, _)) => MT::string(l.clone()),
+        (Mutn::SwapKind(k), x) => {
+            // same string, other kind (when the string is valid there)
+            let Some(s) = string_of(x) else { return x.clone() };
+            match k % 5 {
+                0 if IriRef::new(s).is_ok() => MT::Iri(s.to_string()),
+                1 if BnodeId::new(s).is_ok() => MT::Bnode(s.to_string()),
+                2 => MT::string(s.to_string()),
+                3 if VarName::new(s).is_ok() => MT::Var(s.to_string()),
+                4 if IriRef::new(s).is_ok() => MT::Lit("a".into(), s.to_string()),
+                _ => x.clone(),
+            }
+        }
+        (Mutn::IriTweak(k), MT::Iri(i)) => {
+            let cand = match k % 6 {
+                0 => format!("{i}x"),
+                1 => {
+                    let mut s = i.clone();
+                    s.pop();
+                    s
+                }
+                2 => format!("{i}#"),
+                3 => format!("{i}/"),
+                4 => i.replacen('#', "/", 1),
+                _ => {
+                    // swap the two characters around the last '#' or '/'
+                    let mut cs: Vec<char> = i.chars().collect();
+                    if let Some(p) = cs.iter().rposition(|c| *c == '#' || *c == '/') {
+                        if p + 1 < cs.len() {
+                            cs.swap(p, p + 1);
+                        }
+                    }
+                    cs.into_iter().collect()
+                }
+            };
+            if IriRef::new(cand.as_str()).is_ok() {
+                MT::Iri(cand)
+            } else {
+                a.clone()
+            }
+        }
+        (Mutn::Component(i, inner), MT::Triple(t)) => {
+            let mut t2 = t.clone();
+            let i = (*i % 3) as usize;
+            t2[i] = apply(&t[i], inner);
+            MT::Triple(t2)
+        }
+        (Mutn::Wrap(pos), x) => {
+            let p = MT::iri("http://x/p");
+            match pos % 3 {
+                0 => MT::triple(x.clone(), p, MT::iri("http://x/a")),
+                1 => MT::triple(MT::iri("http://x/a"), p, x.clone()),
+                _ => MT::triple(x.clone(), p, x.clone()),
+            }
+        }
+        (Mutn::Unwrap(i), MT::Triple(t)) => t[(*i % 3) as usize].clone(),
+        (Mutn::Fresh(m), _) => m.clone(),
+        // mutation not applicable to this kind: keep the term (an equal pair)
+        (_, x) => x.clone(),
+    }
+}
+/// the first mutation of the list that really produces another representation; else the term itself
+fn apply_first(a: &MT, ms: &[Mutn]) -> MT {
+    for m in ms {
+        if matches!(m, Mutn::Same) {
+            return a.clone();
+        }
+        let b = apply(a, m);
+        if !b.same_repr(a) {
+            return b;
+        }
+    }
+    a.clone()
+}
+fn mutn(depth: u32) -> BoxedStrategy<Mutn> {
+    let leaf = prop_oneof![
+        1 => Just(Mutn::Same),
+        3 => any::<u8>().prop_map(Mutn::FlipTagCase),
+        2 => pick(tag_pool()).prop_map(Mutn::OtherTag),
+        2 => lex_strategy().prop_map(Mutn::OtherLex),
+        2 => pick(dt_pool()).prop_map(Mutn::OtherDt),
+        3 => prop_oneof![pick(label_pool()), pick(var_pool()), Just(String::new())].prop_map(Mutn::OtherName),
+        1 => pick(tag_pool()).prop_map(Mutn::ToLang),
+        1 => Just(Mutn::ToPlain),
+        3 => any::<u8>().prop_map(Mutn::SwapKind),
+        3 => any::<u8>().prop_map(Mutn::IriTweak),
+        1 => any::<u8>().prop_map(Mutn::Wrap),
+        1 => any::<u8>().prop_map(Mutn::Unwrap),
+        2 => any_term(1).prop_map(Mutn::Fresh),
+    ];
+    if depth == 0 {
+        leaf.boxed()
+    } else {
+        prop_oneof![5 => leaf, 2 => (any::<u8>(), mutn(depth - 1)).prop_map(|(i, m)| Mutn::Component(i, Box::new(m)))].boxed()
+    }
+}
+
+fn valid_term(m: &MT) -> bool {
+    match m {
+        MT::Iri(i) => IriRef::new(i.as_str()).is_ok(),
+        MT::Bnode(b) => BnodeId::new(b.as_str()).is_ok(),
+        MT::Var(v) => VarName::new(v.as_str()).is_ok(),
+        MT::Lit(_, d) => IriRef::new(d.as_str()).is_ok() && d != RDF_LANGSTRING,
+        MT::Lang(_, t) => LanguageTag::new(t.as_str()).is_ok(),
+        MT::Triple(t) => t.iter().all(valid_term),
+    }
+}
+
+fn fixed() -> Vec<Case> {
+    let en = MT::lang("a", "en");
+    let en_up = MT::lang("a", "EN");
+    let tr = |s: MT, p: MT, o: MT| MT::triple(s, p, o);
+    let p = MT::iri("http://x/p");
+    let mut v = vec![
+        Case { a: en.clone(), b: en_up.clone(), c: MT::lang("a", "En") },
+        Case { a: MT::lang("a", "en-US"), b: MT::lang("a", "en-us"), c: MT::lang("a", "en") },
+        Case { a: MT::string("a"), b: en.clone(), c: MT::lit("a", RDF_LANGSTRING.replace("langString", "PlainLiteral")) },
+        Case { a: MT::iri("http://x/ns#p"), b: MT::iri("http://x/ns#pq"), c: MT::iri("http://x/ns#") },
+        Case { a: MT::iri("a"), b: MT::bn("a"), c: MT::var("a") },
+        Case { a: MT::string("a"), b: MT::lit("a", "http://x/a"), c: MT::iri("http://x/a") },
+        Case { a: MT::lit("42", xsd("integer")), b: MT::lit("42", xsd("int")), c: MT::lit("042", xsd("integer")) },
+        Case { a: MT::lit("true", xsd("boolean")), b: MT::lit("1", xsd("boolean")), c: MT::string("true") },
+        Case { a: MT::lit("1.5", xsd("double")), b: MT::lit("1.5", xsd("decimal")), c: MT::lit("1.50", xsd("double")) },
+        Case { a: MT::lit("INF", xsd("double")), b: MT::lit("inf", xsd("double")), c: MT::lit("NaN", xsd("double")) },
+        Case { a: tr(MT::bn("a"), p.clone(), en.clone()), b: tr(MT::bn("a"), p.clone(), en_up.clone()), c: tr(MT::bn("a"), p.clone(), MT::string("a")) },
+        Case {
+            a: tr(tr(MT::iri("http://x/a"), p.clone(), en.clone()), p.clone(), MT::bn("b")),
+            b: tr(tr(MT::iri("http://x/a"), p.clone(), en_up.clone()), p.clone(), MT::bn("b")),
+            c: tr(MT::iri("http://x/a"), p.clone(), MT::bn("b")),
+        },
+        Case { a: MT::var("x"), b: tr(MT::var("x"), MT::var("x"), MT::var("x")), c: MT::bn("x") },
+        Case { a: MT::iri(rdf("type")), b: MT::iri(xsd("string")), c: MT::string(xsd("string")) },
+        Case { a: MT::bn("b1"), b: MT::bn("b10"), c: MT::bn("b2") },
+        Case { a: MT::string(""), b: MT::lang("", "en"), c: MT::lit("", xsd("integer")) },
+    ];
+    // every rank against every rank
+    let reps = [MT::bn("a"), MT::iri("a"), MT::string("a"), en.clone(), tr(MT::iri("a"), MT::iri("a"), MT::iri("a")), MT::var("a")];
+    for x in &reps {
+        for y in &reps {
+            v.push(Case { a: x.clone(), b: y.clone(), c: tr(x.clone(), p.clone(), y.clone()) });
+        }
+    }
+    v
+}
+
+impl Check for C02 {
+    type Case = Case;
+    const ID: &'static str = "C02";
+    fn rule() -> String {
+        "triples (a,b,c) of model terms where b and c are derived from a by near-miss mutations (same / language-tag case / other tag, lexical form, datatype / same string as another kind / IRI edited around its namespace split / one component of a quoted triple / wrapped / unwrapped / fresh). Each term is realised in every shipped Term implementation that can hold it (~30-45 per term incl. every valid NsTerm split, rio Trusted<> terms built directly and obtained inside the N-Quads / generalized N-Quads parser callbacks, JSON-LD RdfTerm, c14n relabelled terms, stash copies, ResultTerm, native values); for every ordered pair of realisations of (a,b), (b,c), (a,c), (a,a): Term::eq, Term::cmp (both directions), Term::hash digests, `==`, `partial_cmp` and std Hash are compared with the model (equality and order written from the documentation). Every realisation is also pushed through 14 conversion paths. Non-trivial = a case in which at least one of the three pairs is equal-but-not-identical (tag case) or unequal while sharing kind; distinct by hash of the case.".into()
+    }
+    fn assumptions() -> Vec<String> {
+        vec![
+            "the intra-kind order is the documented one: IRIs/blank nodes/variables by value (code point order), literals by datatype, then language tag (ASCII case-insensitively), then lexical form, triples lexicographically".into(),
+            "parser-backed, JSON-LD and c14n realisations are judged against the term their own accessors expose (whether parsing preserves the term is C03/C12's business)".into(),
+            "IsoTerm (sophia_isomorphism) is not reachable through the public API and is not exercised; C14nTerm is reached through rdfc10::relabel and only for non-triple, non-variable terms; its triple()/constituents() are not called (unimplemented!() upstream)".into(),
+            "std Hash of the wrapper types IriRef/Iri/BnodeId/VarName (derived from the inner string) is not compared with Term::hash".into(),
+            "blank node labels starting with `riog` are not generated".into(),
+        ]
+    }
+    fn cases(tier: Tier) -> u32 {
+        tier.pick(12_000, 400_000)
+    }
+    fn fixed_cases(_tier: Tier, _seed: u64) -> Vec<Case> {
+        fixed()
+    }
+    fn strategy(_tier: Tier) -> BoxedStrategy<Case> {
+        (any_term(2), proptest::collection::vec(mutn(2), 4), proptest::collection::vec(mutn(2), 4), any::<bool>())
+            .prop_map(|(a, m1, m2, from_b)| {
+                let b = apply_first(&a, &m1);
+                let c = if from_b { apply_first(&b, &m2) } else { apply_first(&a, &m2) };
+                Case { a, b, c }
+            })
+            .prop_filter("well-formed terms only", |c| valid_term(&c.a) && valid_term(&c.b) && valid_term(&c.c) && c.a.depth() <= 3 && c.b.depth() <= 3 && c.c.depth() <= 3)
+            .boxed()
+    }
+    fn run(case: &Case, ctx: &mut Ctx) {
+        if !(valid_term(&case.a) && valid_term(&case.b) && valid_term(&case.c)) {
+            ctx.class("skipped:ill-formed-term");
+            return;
+        }
+        let terms = [&case.a, &case.b, &case.c];
+        let owned: Vec<Owned> = terms.iter().map(|m| Owned::new(m)).collect();
+        // unary: every realisation reads back / converts correctly
+        let mut realisations = 0;
+        for (m, o) in terms.iter().zip(&owned) {
+            let mut u = Unary { ctx: &mut *ctx, intended: m, count: 0 };
+            o.visit_light(&mut u);
+            let mut skipped = vec![];
+            o.visit_heavy(&mut u, &mut skipped);
+            realisations += u.count;
+            for s in skipped {
+                ctx.class(format!("not-parsed:{s}"));
+            }
+        }
+        ctx.count("realisations", realisations);
+        if ctx.failed() {
+            return;
+        }
+        // pairs
+        let mut pairs = 0;
+        let mut interesting = false;
+        for (i, j) in [(0, 1), (1, 2), (0, 2), (0, 0)] {
+            let (ma, mb) = (terms[i], terms[j]);
+            let rel = relation(ma, mb);
+            if i != j {
+                ctx.class(format!("rel:{rel}"));
+                if (ma == mb && !ma.same_repr(mb)) || (ma != mb && ma.rank() == mb.rank()) {
+                    interesting = true;
+                }
+            }
+            let mut outer = Outer { ctx: &mut *ctx, ma_intended: ma, b: &owned[j], pairs: 0 };
+            owned[i].visit_light(&mut outer);
+            let mut sk = vec![];
+            owned[i].visit_heavy(&mut outer, &mut sk);
+            pairs += outer.pairs;
+            if ctx.failed() {
+                return;
+            }
+        }
+        ctx.count("ordered-pairs-of-realisations", pairs);
+        if interesting {
+            ctx.nontrivial();
+        }
+        laws_on_concrete_types(ctx, &owned);
+    }
+    fn show(case: &Case) -> serde_json::Value {
+        serde_json::json!({"a": case.a.show(), "b": case.b.show(), "c": case.c.show()})
+    }
+}
+
+/// transitivity / antisymmetry on concrete types, std collections, same-type operator impls
+fn laws_on_concrete_types(ctx: &mut Ctx, o: &[Owned]) {
+    let ms: Vec<&MT> = o.iter().map(|x| &x.m).collect();
+    // a through SimpleTerm, b through ArcTerm, c through RcTerm (and rotations)
+    let le = |x: Ordering| x != Ordering::Greater;
+    for r in 0..3 {
+        let (a, b, c) = (&o[r], &o[(r + 1) % 3], &o[(r + 2) % 3]);
+        let ab = Term::cmp(&a.st, &b.arc);
+        let bc = Term::cmp(&b.arc, &c.rc);
+        let ac = Term::cmp(&a.st, &c.rc);
+        if le(ab) && le(bc) && !le(ac) {
+            ctx.fail("law/cmp-transitive", format!("{} <= {} <= {} but cmp(a,c) = {ac:?}", a.m.show(), b.m.show(), c.m.show()));
+        }
+        if ab == Ordering::Equal && bc == Ordering::Equal && ac != Ordering::Equal {
+            ctx.fail("law/cmp-transitive", format!("{} == {} == {} but cmp(a,c) = {ac:?}", a.m.show(), b.m.show(), c.m.show()));
+        }
+        let (eab, ebc, eac) = (Term::eq(&a.st, &b.arc), Term::eq(&b.arc, &c.rc), Term::eq(&a.st, &c.rc));
+        if eab && ebc && !eac {
+            ctx.fail("law/eq-transitive", format!("{} = {} = {} but a != c", a.m.show(), b.m.show(), c.m.show()));
+        }
+        if (ab == Ordering::Equal) != eab {
+            ctx.fail("law/cmp-equal-iff-eq", format!("{} vs {}: cmp {ab:?}, eq {eab}", a.m.show(), b.m.show()));
+        }
+        if Term::cmp(&b.arc, &a.st) != ab.reverse() {
+            ctx.fail("law/cmp-antisymmetric", format!("{} vs {}", a.m.show(), b.m.show()));
+        }
+    }
+    // std collections keyed by terms behave like the model set
+    let model: BTreeSet<MT> = ms.iter().map(|m| (*m).clone()).collect();
+    let s1: BTreeSet<SimpleTerm<'static>> = o.iter().map(|x| x.st.clone()).collect();
+    let s2: BTreeSet<ArcTerm> = o.iter().map(|x| x.arc.clone()).collect();
+    let s3: HashSet<RcTerm> = o.iter().map(|x| x.rc.clone()).collect();
+    let s4: HashSet<SimpleTerm<'static>> = o.iter().map(|x| x.st.clone()).collect();
+    let s5: BTreeSet<CmpTerm<ArcTerm>> = o.iter().map(|x| CmpTerm(x.arc.clone())).collect();
+    let s6: HashSet<CmpTerm<&RcTerm>> = o.iter().map(|x| CmpTerm(&x.rc)).collect();
+    let s7: BTreeSet<ResultTerm> = o.iter().map(|x| x.res.clone()).collect();
+    let s8: HashSet<ResultTerm> = o.iter().map(|x| x.res.clone()).collect();
+    for (name, n) in [
+        ("BTreeSet<SimpleTerm>", s1.len()),
+        ("BTreeSet<ArcTerm>", s2.len()),
+        ("HashSet<RcTerm>", s3.len()),
+        ("HashSet<SimpleTerm>", s4.len()),
+        ("BTreeSet<CmpTerm<ArcTerm>>", s5.len()),
+        ("HashSet<CmpTerm<&RcTerm>>", s6.len()),
+        ("BTreeSet<ResultTerm>", s7.len()),
+        ("HashSet<ResultTerm>", s8.len()),
+    ] {
+        if n != model.len() {
+            ctx.fail(
+                format!("collections/{name}"),
+                format!("{name} of [{}] has {n} members, the model set has {}", ms.iter().map(|m| m.show()).collect::<Vec<_>>().join(", "), model.len()),
+            );
+        }
+    }
+    let order_ok = |got: Vec<MT>| got.len() == model.len() && got.iter().zip(model.iter()).all(|(x, y)| x == y);
+    if !order_ok(s1.iter().map(MT::from_term).collect())
+        || !order_ok(s2.iter().map(MT::from_term).collect())
+        || !order_ok(s5.iter().map(|t| MT::from_term(t.borrow_term())).collect())
+        || !order_ok(s7.iter().map(|t| MT::from_term(t.borrow_term())).collect())
+    {
+        ctx.fail("collections/order", format!("iteration order of a BTreeSet of terms differs from the documented order for [{}]", ms.iter().map(|m| m.show()).collect::<Vec<_>>().join(", ")));
+    }
+    // membership through the Term-generic lookups used by the rest of the toolkit
+    for x in o {
+        if !s4.contains(&x.st) || !s3.contains(&x.rc) || !s8.contains(&x.res) {
+            ctx.fail("collections/lookup", format!("{} not found in a HashSet containing it", x.m.show()));
+        }
+    }
+    // same-type operator impls: Ord / Eq / Hash on pairs
+    for i in 0..3 {
+        for j in 0..3 {
+            let (a, b) = (&o[i], &o[j]);
+            let exp = a.m.cmp(&b.m);
+            let mut chk = |name: &str, got: Ordering, eq: bool, ha: u64, hb: u64| {
+                if got != exp || eq != (exp == Ordering::Equal) || (exp == Ordering::Equal && ha != hb) {
+                    ctx.fail(
+                        format!("same-type-ops/{name}/{}", relation(&a.m, &b.m)),
+                        format!("{name}: {} vs {}: Ord::cmp {got:?} (expected {exp:?}), == {eq}, hashes {ha:#x} {hb:#x}", a.m.show(), b.m.show()),
+                    );
+                }
+            };
+            chk("SimpleTerm", Ord::cmp(&a.st, &b.st), a.st == b.st, std_digest(&a.st), std_digest(&b.st));
+            chk("ArcTerm", Ord::cmp(&a.arc, &b.arc), a.arc == b.arc, std_digest(&a.arc), std_digest(&b.arc));
+            chk("RcTerm", Ord::cmp(&a.rc, &b.rc), a.rc == b.rc, std_digest(&a.rc), std_digest(&b.rc));
+            chk("CmpTerm<SimpleTerm>", Ord::cmp(&a.cmp_st, &b.cmp_st), a.cmp_st == b.cmp_st, std_digest(&a.cmp_st), std_digest(&b.cmp_st));
+            chk("ResultTerm", Ord::cmp(&a.res, &b.res), a.res == b.res, std_digest(&a.res), std_digest(&b.res));
+            if let (Some(x), Some(y)) = (&a.gl_arc, &b.gl_arc) {
+                chk("GenericLiteral<Arc<str>>", Ord::cmp(x, y), x == y, std_digest(x), std_digest(y));
+            }
+            if let (Some(x), Some(y)) = (&a.gl_string, &b.gl_string) {
+                chk("GenericLiteral<String>", Ord::cmp(x, y), x == y, std_digest(x), std_digest(y));
+            }
+            if let (Some(x), Some(y)) = (&a.iri_string, &b.iri_string) {
+                chk("IriRef<String>", Ord::cmp(x, y), x == y, std_digest(x), std_digest(y));
+                let (xa, ya) = (a.iri_arc.as_ref().unwrap(), b.iri_arc.as_ref().unwrap());
+                chk("IriRef<Arc<str>>", Ord::cmp(xa, ya), xa == ya, std_digest(xa), std_digest(ya));
+            }
+            if let (Some(x), Some(y)) = (&a.bn_string, &b.bn_string) {
+                chk("BnodeId<String>", Ord::cmp(x, y), x == y, std_digest(x), std_digest(y));
+            }
+            if let (Some(x), Some(y)) = (&a.var_string, &b.var_string) {
+                chk("VarName<String>", Ord::cmp(x, y), x == y, std_digest(x), std_digest(y));
+            }
+            if let (MT::Lang(_, t1), MT::Lang(_, t2)) = (&a.m, &b.m) {
+                let (x, y) = (LanguageTag::new_unchecked(t1.as_str()), LanguageTag::new_unchecked(t2.as_str()));
+                let e = Ord::cmp(&t1.to_ascii_lowercase(), &t2.to_ascii_lowercase());
+                if Ord::cmp(&x, &y) != e || (x == y) != (e == Ordering::Equal) || (e == Ordering::Equal && std_digest(&x) != std_digest(&y)) {
+                    ctx.fail("same-type-ops/LanguageTag", format!("{t1} vs {t2}: cmp {:?} eq {}", Ord::cmp(&x, &y), x == y));
+                }
+            }
+        }
+    }
+}
+
+pub fn main(opts: &Opts) -> i32 {
+    drive::<C02>(opts)
 }
 pub fn worker(_args: &[String]) -> i32 {
     2
